@@ -538,6 +538,14 @@ theorem step_slice (t h i j : Nat) (ht : t < NS) : StepOK E st sp (.slice t h i 
   rw [hel, Option.bind_some]
   exact step_producer E hg t h ht _
 
+theorem step_slicee (t h i : Nat) (ht : t < NS) : StepOK E st sp (.slicee t h i) := by
+  obtain ⟨f, hf⟩ := hg.sim
+  simp only [StepOK, step, specStep]
+  refine with_occ hg h (fun ho => ?_)
+  obtain ⟨_, _, _, _, _, _, _, hel⟩ := read_sim hf ho
+  rw [hel, Option.bind_some]
+  exact step_producer E hg t h ht _
+
 theorem step_filt (t h m r : Nat) (ht : t < NS) : StepOK E st sp (.filt t h m r) := by
   obtain ⟨f, hf⟩ := hg.sim
   simp only [StepOK, step, specStep]
@@ -826,6 +834,7 @@ theorem step_sim [DecidableEq α] (E : Elem α) {st : St α} {sp : Sp α} (hg : 
   | appown h j k => exact step_appown E hg _ j k hgd
   | copyown h j k => exact step_copyown E hg _ j k
   | remx h i c => exact step_remx E hg _ i c
+  | slicee t h i => exact step_slicee E hg _ _ i (mod_NS_lt t)
 
 theorem view_sim {st : St α} {sp : Sp α} (hg : Good st sp) (slot : Nat) : st.view slot = some (sp.view slot) := by
   obtain ⟨f, hf⟩ := hg.sim
